@@ -4,7 +4,7 @@
 
 #![warn(missing_docs)]
 
-use chrono::prelude::{DateTime, Utc};
+use chrono::prelude::{DateTime, Datelike, Utc};
 use msi::{Package, Select};
 use safer_ffi::prelude::*;
 use std::{io, path::Path};
@@ -101,12 +101,17 @@ fn get_information(path: char_p::Ref<'_>) -> MsiInformation {
                     .to_string()
                     .into(),
                 creation_time: {
-                    if let Some(time) = package.summary_info().creation_time()
-                    {
-                        let datetime: DateTime<Utc> = time.into();
-                        datetime.to_rfc2822().into()
-                    } else {
-                        "".into()
+                    match package.summary_info().creation_time() {
+                        Some(time) => {
+                            let datetime: DateTime<Utc> = time.into();
+                            // RFC 2822 can only express years 0 to 9999.
+                            if (0..=9999).contains(&datetime.year()) {
+                                datetime.to_rfc2822().into()
+                            } else {
+                                "".into()
+                            }
+                        }
+                        None => "".into(),
                     }
                 },
                 languages: {
@@ -182,17 +187,20 @@ fn get_table(
                     result.push(columns.into());
 
                     // then, we add the rows
-                    package
+                    match package
                         .select_rows(Select::table(table_name.to_str()))
-                        .expect("select")
-                        .for_each(|row| {
+                    {
+                        Ok(rows) => rows.for_each(|row| {
                             let mut row_data: Vec<repr_c::String> =
                                 Vec::with_capacity(row.len());
                             for index in 0..row.len() {
                                 row_data.push(row[index].to_string().into());
                             }
                             result.push(row_data.into());
-                        });
+                        }),
+                        // The table's data could not be read.
+                        Err(_) => return repr_c::Vec::EMPTY,
+                    }
 
                     result.into()
                 }
